@@ -87,7 +87,11 @@ def groups(tier, seed):
     gs.append({"name": "disk-indef", "kind": "disk", "obj": "indef"})
     for sc in ("noscale", "scaled"):
         for o in ("spd1", "spd100"):
-            gs.append({"name": "bound-%s-%s" % (o, sc), "kind": "bound", "obj": o, "scaled": sc == "scaled"})
+            gs.append({"name": "bound-%s-%s" % (o, sc), "kind": "bound", "obj": o, "scaled": sc == "scaled", "css": 1.0})
+    # constraintStiffnessScaling != 1 (the scaling of the constrained dofs then differs from sqrt(diag K)); added after
+    # a seeded change that was only visible with this option went undetected
+    for css in (0.05, 8.0):
+        gs.append({"name": "bound-spd100-scaled-css%g" % css, "kind": "bound", "obj": "spd100", "scaled": True, "css": css})
     # heaviest first
     gs.sort(key=lambda g: (0 if g["obj"] == "spd1" else 1, g["name"]))
     return gs
@@ -370,6 +374,7 @@ def _run_bound(g, tier, seed, rec, d, xstar, configs, f, P):
     placements = {"inactive": xstar - onp.array([1.0, 1.5]), "active": xstar + onp.array([0.7, 0.4]),
                   "weak": xstar.copy(), "mixed": xstar + onp.array([0.7, -1.0])}
     idxsets = {"i0": [0], "i01": [0, 1]}
+    css = float(g.get("css", 1.0))
     # only deviations of axes that exist for this front end (lam0/kap0 are fixed by the library here)
     configs = [c for c in configs if c[2]["lam0"] == "0" and c[2]["kap0"] == "1"]   # (library fixes lam0/kap0 here)
 
@@ -393,7 +398,7 @@ def _run_bound(g, tier, seed, rec, d, xstar, configs, f, P):
                     ps = Objective.PrecondStrategy(lambda x, p: csc_matrix(onp.array(d["A"]) + 3.0 * d["c4"] * onp.diag(onp.array(x + p[1]) ** 2)))
                 try:
                     obj = BoundConstrainedObjective(fs, jnp.array(x0), pold, jnp.array(idxa),
-                                                    constraintStiffnessScaling=1.0, precondStrategy=ps)
+                                                    constraintStiffnessScaling=css, precondStrategy=ps)
                 except Exception as e:  # noqa
                     ek = exception_key(e)
                     if ek.endswith("@harness"):
@@ -402,7 +407,8 @@ def _run_bound(g, tier, seed, rec, d, xstar, configs, f, P):
                                   "obj=%s;place=%s;idx=%s;start=%s" % (g["obj"], pl, il, sl), {"error": repr(e)})
                     continue
                 for ndev, cfgid, clab, cval in configs:
-                    cid = "obj=%s;cons=bound:%s:%s:%s;start=%s;%s" % (g["obj"], "scaled" if g["scaled"] else "noscale", pl, il, sl, cfgid)
+                    cid = "obj=%s;cons=bound:%s%s:%s:%s;start=%s;%s" % (g["obj"], "scaled" if g["scaled"] else "noscale",
+                                                                        "" if css == 1.0 else "-css%g" % css, pl, il, sl, cfgid)
                     if not rec.want(cid):
                         continue
                     obj.p = pold if cval["ws"] else pnew
@@ -443,6 +449,8 @@ def _run_bound(g, tier, seed, rec, d, xstar, configs, f, P):
                     S = onp.array(obj.scaling, dtype=float) * onp.ones(n)
                     # independent scaling: sqrt(diag K0) at x0 under the parameters at construction
                     Sref = onp.sqrt(onp.diag(R.q_hess(x0 + t, d))) if g["scaled"] else onp.ones(n)
+                    if g["scaled"]:
+                        Sref[idxa] = Sref[idxa] / css      # documented: constrained dofs are scaled by 1/constraintStiffnessScaling more
                     sigs = []
                     if not onp.allclose(S, Sref, rtol=1e-12, atol=0):
                         sigs.append(("scaling-not-sqrt-of-stiffness-diagonal", {"scaling": S, "expected": Sref}))
